@@ -277,6 +277,36 @@ fn c01(case: &Case, ctx: &Ctx, rpt: &mut Report) {
     if accepted > 0 {
         rpt.bucket("expressions-with-accepted-path");
     }
+    // The documented semantics do not depend on the route by which the pattern is given or the
+    // candidate is handed over: a combinator of this one pattern (given as text and as the
+    // compiled glob — both rebuild and recompile the token tree) and a native `Path` candidate
+    // must decide every path as the glob decided it above.
+    let any_text = guarded(|| wax::any([case.expr]).ok()).flatten();
+    let any_glob = guarded(|| wax::any([case.glob.clone()]).ok()).flatten();
+    for p in &case.paths {
+        let got = match case.is_match(p) {
+            Some(b) => b,
+            None => continue,
+        };
+        for (route, other) in [
+            ("any([text])", any_text.as_ref().and_then(|a| guarded(|| a.is_match(p.as_str())))),
+            ("any([compiled])", any_glob.as_ref().and_then(|a| guarded(|| a.is_match(p.as_str())))),
+            ("candidate-as-Path", guarded(|| case.glob.is_match(Path::new(p.as_str())))),
+        ] {
+            if let Some(o) = other {
+                rpt.evaluations += 1;
+                if o != got {
+                    rpt.disagreement(
+                        &ctx.known,
+                        "route-changes-what-matches",
+                        None,
+                        json!({"expr": clip(case.expr), "path": clip(p), "glob_matches": got, "route": route, "route_matches": o}),
+                    );
+                }
+            }
+        }
+    }
+    rpt.bucket("routes-compared(any-of-text,any-of-compiled,Path-candidate)");
     rpt.sample(json!({"expr": clip(case.expr), "regex": clip(&case.pattern), "paths_tried": case.paths.len(), "accepted": accepted, "rejected": rejected, "example_path": case.paths.first()}));
 }
 
@@ -681,6 +711,45 @@ fn c04(case: &Case, ctx: &Ctx, rpt: &mut Report) {
         });
         crate::monitors::group_b::check_capture_spans(&post_expr, &post, "postfix", ctx, rpt, flags_before_tree);
         rpt.bucket("postfix-captures-checked");
+        // The postfix of a glob that was first converted into its owned form (it is recompiled
+        // from the rebuilt token tree) has matched text exactly when, and exactly as, the
+        // postfix of the borrowed glob has.
+        let npost = guarded(|| post.captures().count()).unwrap_or(0);
+        let view = |g: &Glob, p: &str| -> Option<Option<Vec<Option<String>>>> {
+            guarded(|| {
+                let cand = CandidatePath::from(p);
+                g.matched(&cand).map(|m| (0..npost + 2).map(|i| m.get(i).map(|s| s.to_string())).collect())
+            })
+        };
+        for (route, owned) in [
+            ("into_owned+partition", guarded(|| case.glob.clone().into_owned())),
+            ("from_str+partition", guarded(|| case.expr.parse::<Glob<'static>>().ok()).flatten()),
+        ] {
+            let post_o = match owned.and_then(|o| guarded(|| o.partition())) {
+                Some((_, Some(g))) => g,
+                _ => continue,
+            };
+            rpt.bucket("owned-postfix-matched-text-compared");
+            for p in &case.paths {
+                // The path itself and each of its suffixes that begin a component.
+                let mut rests: Vec<&str> = vec![p.as_str()];
+                rests.extend(p.match_indices('/').map(|(i, _)| &p[i + 1..]));
+                for r in rests.into_iter().take(6) {
+                    if let (Some(b), Some(o)) = (view(&post, r), view(&post_o, r)) {
+                        rpt.evaluations += 1;
+                        if b != o {
+                            rpt.disagreement(
+                                &ctx.known,
+                                "postfix-of-owned-glob-has-different-matched-text",
+                                None,
+                                json!({"expr": clip(case.expr), "postfix": clip(&post_expr), "path": clip(r), "route": route, "borrowed": b, "owned": o}),
+                            );
+                            break;
+                        }
+                    }
+                }
+            }
+        }
     }
     if n > 0 && matched_paths > 0 {
         rpt.nontrivial.insert(hash_str(case.expr));
@@ -960,6 +1029,24 @@ fn c07(case: &Case, ctx: &Ctx, rpt: &mut Report, rng: &mut Rng, stream: &ExprStr
             }
         }
     }
+    // The union of no patterns matches nothing (every 500th case, so that every shard of every
+    // run observes it).
+    if idx % 500 == 0 {
+        if let Some(none) = guarded(|| wax::any(Vec::<&str>::new()).ok()).flatten() {
+            rpt.bucket("any-route:no-patterns");
+            for p in ["", "a", "/", "a/b"] {
+                rpt.evaluations += 1;
+                if guarded(|| none.is_match(p)) == Some(true) {
+                    rpt.disagreement(
+                        &ctx.known,
+                        "any-is-not-the-union-of-its-patterns",
+                        if p.is_empty() { Some("combinator-of-no-patterns-matches-the-empty-path") } else { None },
+                        json!({"patterns": [], "path": p, "any_matches": true, "union_matches": false}),
+                    );
+                }
+            }
+        }
+    }
     // `any` is union: text / compiled / nested.
     let other1 = stream.at((idx * 7 + 3) % stream.len());
     let other2 = stream.at((idx * 13 + 5) % stream.len());
@@ -1032,7 +1119,15 @@ fn c07(case: &Case, ctx: &Ctx, rpt: &mut Report, rng: &mut Rng, stream: &ExprStr
             }
         }
     }
-    for (route, any) in [("text", &from_text), ("compiled", &from_globs), ("nested", &nested)] {
+    // From the owned forms of the compiled globs (the owned glob keeps its program, the
+    // combinator recompiles from the rebuilt token trees).
+    let from_owned: Option<Any> = guarded(|| wax::any(globs.iter().cloned().map(Glob::into_owned)).ok()).flatten();
+    let from_parsed: Option<Any> = guarded(|| {
+        let parsed: Option<Vec<Glob<'static>>> = exprs.iter().map(|e| e.parse::<Glob<'static>>().ok()).collect();
+        parsed.and_then(|v| wax::any(v).ok())
+    })
+    .flatten();
+    for (route, any) in [("text", &from_text), ("compiled", &from_globs), ("nested", &nested), ("owned", &from_owned), ("parsed", &from_parsed)] {
         let any = match any {
             Some(a) => a,
             None => {
